@@ -258,7 +258,7 @@ pub fn external_components(
             }
         }
     }
-    // since /repo <COMMIT-F17> (finding F17) theory_translate appends the empty completed definition of every
+    // since /repo 70e6ace (finding F17) theory_translate appends the empty completed definition of every
     // output predicate that does not occur in the completed theory, before the simplification:
     // the simplification table covers them (for every declared output predicate; built here, not
     // taken from the code, so that the harness compiles against trees without the repair - the
